@@ -59,7 +59,7 @@ def rule_a(repo, chk):
                     # every use of line/column is inside that one call
                     inside = {id(x) for x in ast.walk(call)}
                     ok = ok and all(id(u) in inside for u in uses)
-            n_fwd += ok
+            n_fwd += 1
             chk.ob('C01.a', ok, f, '%s.%s(line, column) validates its position (decorated, or forwards line/column untouched to a decorated method)' % (c.qual, name),
                    detail or 'not decorated and does not purely forward')
     chk.floor('C01.a', n_dec, 7, '(decorated query methods)')
